@@ -254,3 +254,17 @@ func (it *smapIter) next() tuple {
 	}
 	return tuple{false, nil, nil}
 }
+
+// clear removes every entry (builtin clear).
+func (m *smap) clear() {
+	m.checkGuard(true)
+	if m.havoc != nil {
+		panic(engineErr{"clear of havoc map"})
+	}
+	for _, e := range m.entries {
+		e.deleted = true
+	}
+	m.entries = nil
+	m.idx = map[interface{}]*mentry{}
+	m.nsym = 0
+}
